@@ -7,11 +7,11 @@ CHECK = {'level': 'exploration',
          'renew(0|small|huge) / age-stored-records(10s|500s|2000s)+restart / restart on 6 credential kinds on a real '
          'Core; every renew response and every stored lease is checked against issue+effective max, expired leases '
          'must refuse renewal and be revoked, and the stored-lease = tracked-lease invariant must hold in every state. '
-         'K: crash after every durable mutation of renew and revoke, restart, invariant. Z: BFS (depth 3/4) over histories of a namespace with its own seal (issue token / secret in it, in its child and in the root namespace, renew, age the stored records, seal, unseal, restart and the composites seal+unseal, age+seal+unseal, age+restart+unseal): stored = tracked whenever the namespace is unsealed (outside the sealed subtree while it is sealed), every pending lease has an armed timer or a queued revocation, leases that expired across a sealed period are revoked after the unseal. W: a renewal racing the lease restore of a restart: one restore worker is pinned right after its read of the lease record, a renewal is issued, the worker released (both possible orders); afterwards the tracked expiry must equal the stored one. distinct non-trivial = '
+         'K: crash after every durable mutation of renew and revoke, restart, invariant. Z: BFS (depth 3/4) over histories of a namespace with its own seal (issue token / secret in it, in its child and in the root namespace, renew, age the stored records, seal, unseal, restart and the composites seal+unseal, age+seal+unseal, age+restart+unseal): stored = tracked whenever the namespace is unsealed (outside the sealed subtree while it is sealed), every pending lease has an armed timer or a queued revocation, leases that expired across a sealed period are revoked after the unseal. H: a real HA pair (two Cores on one store and one HA lock; explicit-state enumeration, depth 3/4, of histories over issue token / secret / secret in a child namespace / periodic login, renew all, revoke, fail-over (seal the active node), sys/step-down (the node stays unsealed and keeps its Core object), restart of both nodes, and each leadership change preceded by ageing every stored lease past its maximum; every history contains a leadership change): after every step the node that is active then tracks exactly the stored leases with an armed timer or a queued revocation each, renewals served after a leadership change stay below issue + effective max and never move the issue time, leases that expired across the change are revoked on the node that took over (record gone, secret revoked at its backend, token refused, renewal refused). W: a renewal racing the lease restore of a restart: one restore worker is pinned right after its read of the lease record, a renewal is issued, the worker released (both possible orders); afterwards the tracked expiry must equal the stored one. distinct non-trivial = '
          'distinct (outcome class, which bounds are active) / model states',
  'assumptions': ['time passing is simulated by rewriting issue/expire times of the stored lease records through '
                  'sys/raw and restarting (no clock seam); every time-bound oracle carries a slack of 2 s',
-                 'leadership changes are not varied (single active node); a restart stands for losing and regaining the active role'],
+                 'leadership changes: a two-node HA pair on an in-memory HA lock (part H); the pause of a node after sys/step-down before it contends for the lock again is shortened from 10 s to 300 ms through a package variable (the repository tests do the same); whichever node holds the lock afterwards is taken as the active one'],
  'units': [{'name': 'lattice',
             'module': 'sdk',
             'pkg': './helper/verifh/c05l',
@@ -26,7 +26,7 @@ CHECK = {'level': 'exploration',
             'timeout': {'quick': 900, 'thorough': 3400}}]}
 
 META = {'engines': 'E0 E2 E3',
- 'technique': 'exhaustive input-lattice enumeration of the real TTL computation; BFS over renew/age/restart and namespace seal/unseal histories '
+ 'technique': 'exhaustive input-lattice enumeration of the real TTL computation; BFS over renew/age/restart, namespace seal/unseal and HA leadership-change histories '
               'on a real Core; crash-point and single-fault enumeration of renew / revoke / the revocation retry sequence',
  'text': 'The TTL arithmetic is a pure function of a small tuple: the whole lattice is enumerated and compared with '
          "the bound the statement gives. Renewal sequences and 'every stored lease is tracked' are history/crash "
